@@ -19,6 +19,7 @@ import (
 	"time"
 
 	"github.com/golang-jwt/jwt/v4"
+	"github.com/gotid/god/api/chain"
 	"github.com/gotid/god/api/pathvar"
 	"github.com/gotid/god/api/router"
 	"github.com/gotid/god/lib/logx"
@@ -97,17 +98,75 @@ type c03eCase struct {
 	// Server.AddRoutes; Share[g] >= 0: group g re-uses the []Route slice of that earlier group.
 	Prefix [][]string `json:"prefix,omitempty"`
 	Share  []int      `json:"share,omitempty"`
-	Custom bool          `json:"custom,omitempty"` // custom not-found handler behind the engine wrapper
+	Custom bool       `json:"custom,omitempty"` // custom not-found handler behind the engine wrapper
+	Silent bool       `json:"silent,omitempty"` // ... which writes neither a status nor a body: the wrapper must answer 404
+	// Opt[g]: further route options of group g; Cfg: engine configuration and server options.
+	// All of them are transparent to routing: the statement's verdicts must not change.
+	Opt []c03eOpt `json:"opt,omitempty"`
+	Cfg c03eCfg   `json:"cfg,omitempty"`
 	// Jwt[g]: group g is added WithJwt; every request then carries a valid token whose custom
 	// claims are named Claims (drawn from c03eDict, the tree's own identifiers and literals)
-	Jwt    []bool   `json:"jwt,omitempty"`
-	Claims []string `json:"claims,omitempty"`
-	Reqs   []c03eRoute   `json:"reqs"`
+	Jwt    []bool      `json:"jwt,omitempty"`
+	Claims []string    `json:"claims,omitempty"`
+	Reqs   []c03eRoute `json:"reqs"`
 }
+
+type c03eOpt struct {
+	T   int64 `json:"t,omitempty"`   // WithTimeout (ms; generated far beyond anything a loaded machine needs)
+	B   int64 `json:"b,omitempty"`   // WithMaxBytes (requests carry no body)
+	Pri bool  `json:"pri,omitempty"` // WithPriority
+	Sig int   `json:"sig,omitempty"` // 1: WithSignature, lax, no keys (no verifier); 2: strict without keys (outcome of bindRoutes unspecified)
+	JT  int   `json:"jt,omitempty"`  // on a Jwt group: 1 = WithJwtTransition(secret, older), 2 = WithJwtTransition(newer, secret)
+	Mw  int   `json:"mw,omitempty"`  // 1, 2: WithMiddlewares with that many pass-through middlewares; 3: WithMiddleware
+}
+
+type c03eCfg struct {
+	Name     string `json:"name,omitempty"`
+	Verbose  bool   `json:"verbose,omitempty"`
+	Timeout  int64  `json:"timeout,omitempty"`
+	MaxConns int    `json:"maxconns,omitempty"`
+	MaxBytes int64  `json:"maxbytes,omitempty"`
+	Cpu      int64  `json:"cpu,omitempty"`   // CpuThreshold > 0: adaptive shedders are built (sequential requests are never shed: nothing is in flight at Allow)
+	Chain    bool   `json:"chain,omitempty"` // WithChain(custom pass-through chain) replaces the default chain
+	Use      int    `json:"use,omitempty"`   // Server.Use with that many pass-through middlewares
+	Cors     int    `json:"cors,omitempty"`  // 1: WithCors(), 2: WithCors(origin): the router is wrapped; OPTIONS and the not-allowed answer belong to cors
+}
+
+const (
+	c03eOlder = "c03e-older-secret-987654"
+	c03eNewer = "c03e-newer-secret-456789"
+)
 
 var c03eValid = map[string]bool{"DELETE": true, "GET": true, "HEAD": true, "OPTIONS": true, "PATCH": true, "POST": true, "PUT": true}
 
-func c03eSegs(p string) []string { return strings.Split(path.Clean(p)[1:], "/") }
+// c03eClean: the cleaned form of a rooted path, written from the statement ('//', '/./',
+// trailing '/', '..' removed); deliberately not path.Clean, which the code under test calls.
+func c03eClean(p string) string {
+	var st []string
+	for _, s := range strings.Split(p, "/") {
+		switch s {
+		case "", ".":
+		case "..":
+			if len(st) > 0 {
+				st = st[:len(st)-1]
+			}
+		default:
+			st = append(st, s)
+		}
+	}
+	return "/" + strings.Join(st, "/")
+}
+
+// c03eJoin: a group prefix put in front of a route path (WithPrefix); a prefix without a
+// leading '/' yields an unrooted path (which registration must reject).
+func c03eJoin(prefix, p string) string {
+	if len(prefix) > 0 && prefix[0] == '/' {
+		return c03eClean(prefix + "/" + p)
+	}
+	return prefix + "/" + p
+}
+
+func c03eSegs(p string) []string { return strings.Split(c03eClean(p)[1:], "/") }
 
 func c03eMatch(pat, req []string) (map[string][]string, bool) {
 	if len(pat) != len(req) {
@@ -131,11 +190,58 @@ func c03eInterp(c c03eCase) (v kit.Verdict) {
 		}
 	}()
 	classes := map[string]bool{}
-	srv := &Server{ng: newEngine(Config{Host: "c03e"}), router: router.NewRouter()}
+	cfg := Config{Host: "c03e", Verbose: c.Cfg.Verbose, Timeout: c.Cfg.Timeout, MaxConns: c.Cfg.MaxConns, MaxBytes: c.Cfg.MaxBytes, CpuThreshold: c.Cfg.Cpu}
+	cfg.Name = c.Cfg.Name
+	srv := &Server{ng: newEngine(cfg), router: router.NewRouter()}
 	ng := srv.ng
 	var slices [][]Route
 	var ran []int
 	var ranVars map[string]string
+	var mwRan []string // tags of the route-level middlewares (part of the registered handlers) that ran
+	pass := func(tag string) Middleware {
+		return func(next http.HandlerFunc) http.HandlerFunc {
+			return func(w http.ResponseWriter, q *http.Request) {
+				if tag != "" {
+					mwRan = append(mwRan, tag)
+				}
+				next(w, q)
+			}
+		}
+	}
+	if c.Cfg != (c03eCfg{}) {
+		classes["engine-config"] = true
+	}
+	// server options in the order NewServer applies them: its own WithNotFoundHandler(nil) first
+	WithNotFoundHandler(nil)(srv)
+	switch c.Cfg.Cors {
+	case 1:
+		WithCors()(srv)
+		classes["cors-router"] = true
+	case 2:
+		WithCors("http://c03e.example")(srv)
+		classes["cors-router"] = true
+	}
+	if c.Cfg.Chain {
+		WithChain(chain.New(func(next http.Handler) http.Handler {
+			return http.HandlerFunc(func(w http.ResponseWriter, q *http.Request) { next.ServeHTTP(w, q) })
+		}))(srv)
+		classes["custom-chain"] = true
+	}
+	if c.Custom {
+		WithNotFoundHandler(http.HandlerFunc(func(w http.ResponseWriter, q *http.Request) {
+			ran = append(ran, -1)
+			if !c.Silent {
+				w.WriteHeader(288) // a custom not-found handler that sets a status decides it itself
+			}
+		}))(srv)
+	}
+	for i := 0; i < c.Cfg.Use; i++ {
+		srv.Use(pass("")) // global middlewares: pass-through, not judged
+		classes["global-middleware"] = true
+	}
+	sigStrict := false
+	mwOwner := map[string]int{} // route-middleware tag -> group that owns it
+	ownerOf := map[int]int{}    // handler id -> group whose []Route created it
 	id := 0
 	type reg struct {
 		id   int
@@ -165,13 +271,14 @@ func c03eInterp(c c03eCase) (v kit.Verdict) {
 				_ = ri
 			}
 			for _, pf := range prefixes {
-				r.P = path.Join(pf, r.P)
+				r.P = c03eJoin(pf, r.P)
 			}
 			my := id
 			if shared >= 0 {
 				my = groupIDs[shared][ri]
 			} else {
 				id++
+				ownerOf[my] = gi
 				raw := c.Groups[gi][ri]
 				rs = append(rs, Route{Method: raw.M, Path: raw.P, Handler: func(w http.ResponseWriter, q *http.Request) {
 					ran = append(ran, my)
@@ -185,7 +292,7 @@ func c03eInterp(c c03eCase) (v kit.Verdict) {
 			myIDs = append(myIDs, my)
 			bad := !c03eValid[r.M] || len(r.P) == 0 || r.P[0] != '/'
 			if !bad {
-				k := r.M + " " + path.Clean(r.P)
+				k := r.M + " " + c03eClean(r.P)
 				if seen[k] {
 					bad = true
 					classes["duplicate"] = true
@@ -211,8 +318,29 @@ func c03eInterp(c c03eCase) (v kit.Verdict) {
 				table[r.M] = append(table[r.M], reg{id: my, segs: c03eSegs(r.P), lit: lit})
 			}
 		}
+		var o c03eOpt
+		if gi < len(c.Opt) {
+			o = c.Opt[gi]
+		}
 		if shared >= 0 {
 			rs = slices[shared]
+		} else if o.Mw > 0 {
+			// route-level middlewares: the wrapped handler IS the handler registered for the pattern
+			classes["route-middlewares"] = true
+			switch o.Mw {
+			case 1, 2:
+				var ms []Middleware
+				for k := 0; k < o.Mw; k++ {
+					tag := fmt.Sprintf("g%dm%d", gi, k)
+					mwOwner[tag] = gi
+					ms = append(ms, pass(tag))
+				}
+				rs = WithMiddlewares(ms, rs...)
+			default:
+				tag := fmt.Sprintf("g%dm", gi)
+				mwOwner[tag] = gi
+				rs = WithMiddleware(pass(tag), rs...)
+			}
 		}
 		slices = append(slices, rs)
 		groupIDs = append(groupIDs, myIDs)
@@ -221,21 +349,48 @@ func c03eInterp(c c03eCase) (v kit.Verdict) {
 			opts = append(opts, WithPrefix(pf))
 		}
 		if gi < len(c.Jwt) && c.Jwt[gi] {
-			opts = append(opts, WithJwt(c03eSecret))
+			switch o.JT {
+			case 1:
+				opts = append(opts, WithJwtTransition(c03eSecret, c03eOlder))
+				classes["jwt-transition"] = true
+			case 2:
+				opts = append(opts, WithJwtTransition(c03eNewer, c03eSecret))
+				classes["jwt-transition"] = true
+			default:
+				opts = append(opts, WithJwt(c03eSecret))
+			}
 			classes["jwt-group"] = true
+		}
+		if o.T > 0 {
+			opts = append(opts, WithTimeout(time.Duration(o.T)*time.Millisecond))
+		}
+		if o.B > 0 {
+			opts = append(opts, WithMaxBytes(o.B))
+		}
+		if o.Pri {
+			opts = append(opts, WithPriority())
+		}
+		switch o.Sig {
+		case 1:
+			opts = append(opts, WithSignature(SignatureConfig{Expire: time.Hour}))
+		case 2:
+			opts = append(opts, WithSignature(SignatureConfig{Strict: true, Expire: time.Hour}))
+			sigStrict = true
+		}
+		if o.T > 0 || o.B > 0 || o.Pri || o.Sig > 0 {
+			classes["route-options"] = true
 		}
 		srv.AddRoutes(rs, opts...)
 	}
 	rt := srv.router
-	if c.Custom {
-		rt.SetNotFoundHandler(ng.notFoundHandler(http.HandlerFunc(func(w http.ResponseWriter, q *http.Request) {
-			ran = append(ran, -1)
-			w.WriteHeader(288) // a custom not-found handler decides the status itself
-		})))
-	} else {
-		rt.SetNotFoundHandler(ng.notFoundHandler(nil))
-	}
 	err := ng.bindRoutes(rt)
+	if sigStrict && !wantErr {
+		// strict signature checking without keys: whether binding is refused is C04's business,
+		// the routing statement does not determine it. Run for panics only.
+		v.Excluded = true
+		v.Classes = []string{"signature-misconfigured-unspecified"}
+		return v
+	}
 	if wantErr != (err != nil) {
 		return v.Failf("bindRoutes over groups %v: error=%v, reference says a registration must be rejected=%v", c.Groups, err, wantErr)
 	}
@@ -258,11 +413,16 @@ func c03eInterp(c c03eCase) (v kit.Verdict) {
 		}
 	}
 	for _, q := range c.Reqs {
-		ran, ranVars = nil, nil
+		ran, ranVars, mwRan = nil, nil, nil
 		rec := httptest.NewRecorder()
-		rt.ServeHTTP(rec, &http.Request{Method: q.M, URL: &url.URL{Path: q.P}, Header: hdr.Clone(), RemoteAddr: "127.0.0.1:1"})
+		rt.ServeHTTP(rec, &http.Request{Method: q.M, URL: &url.URL{Path: q.P}, Header: hdr.Clone(), RemoteAddr: "127.0.0.1:1", Body: http.NoBody,
+			Proto: "HTTP/1.1", ProtoMajor: 1, ProtoMinor: 1, Host: "c03e", RequestURI: q.P})
 		rsegs := c03eSegs(q.P)
-		what := fmt.Sprintf("request %s %q over engine groups %v", q.M, q.P, c.Groups)
+		what := fmt.Sprintf("request %s %q over engine groups %v prefix %v opt %+v cfg %+v", q.M, q.P, c.Groups, c.Prefix, c.Opt, c.Cfg)
+		if c.Cfg.Cors > 0 && q.M == http.MethodOptions {
+			classes["cors-preflight-unspecified"] = true // answered by the cors layer in front of the router
+			continue
+		}
 		matches := map[int][]map[string][]string{} // handler id -> variable bindings of its matching registrations
 		literal := -1
 		for _, g := range table[q.M] {
@@ -307,8 +467,25 @@ func c03eInterp(c c03eCase) (v kit.Verdict) {
 			if !good {
 				return v.Failf("%s: bound vars %v, reference allows %v", what, ranVars, cands)
 			}
+			// the route-level middlewares are part of the handler registered for the pattern:
+			// exactly those of the group that built the handler ran, each once
+			seenTag := map[string]bool{}
+			for _, tag := range mwRan {
+				if mwOwner[tag] != ownerOf[ran[0]] || seenTag[tag] {
+					return v.Failf("%s: handler #%d (built by group %d) ran with route middlewares %v", what, ran[0], ownerOf[ran[0]], mwRan)
+				}
+				seenTag[tag] = true
+			}
+			for tag, g := range mwOwner {
+				if g == ownerOf[ran[0]] && !seenTag[tag] {
+					return v.Failf("%s: handler #%d ran without its route middleware %s (ran: %v)", what, ran[0], tag, mwRan)
+				}
+			}
 			classes["dispatched"] = true
 			continue
+		}
+		if len(mwRan) > 0 {
+			return v.Failf("%s: no registered pattern matches but route middlewares %v (part of registered handlers) ran", what, mwRan)
 		}
 		allowed := map[string]bool{}
 		for m, gs := range table {
@@ -323,6 +500,12 @@ func c03eInterp(c c03eCase) (v kit.Verdict) {
 		}
 		if len(allowed) > 0 {
 			classes["405"] = true
+			if c.Cfg.Cors > 0 { // WithCors installs its own not-allowed handler, which decides the answer
+				if len(ran) != 0 {
+					return v.Failf("%s: no pattern of the method matches but ran=%v", what, ran)
+				}
+				continue
+			}
 			if len(ran) != 0 || rec.Code != http.StatusMethodNotAllowed {
 				return v.Failf("%s: expected 405, got %d ran=%v", what, rec.Code, ran)
 			}
@@ -339,8 +522,13 @@ func c03eInterp(c c03eCase) (v kit.Verdict) {
 		}
 		classes["404"] = true
 		if c.Custom {
-			if len(ran) != 1 || ran[0] != -1 || rec.Code != 288 {
-				return v.Failf("%s: expected the custom not-found handler (status 288), got %d ran=%v", what, rec.Code, ran)
+			want := 288
+			if c.Silent {
+				want = http.StatusNotFound // the handler set nothing: the answer is 404
+				classes["silent-custom-notfound"] = true
+			}
+			if len(ran) != 1 || ran[0] != -1 || rec.Code != want {
+				return v.Failf("%s: expected the custom not-found handler (status %d), got %d ran=%v", what, want, rec.Code, ran)
 			}
 			continue
 		}
@@ -454,6 +642,30 @@ func c03eGen(rt *rapid.T) c03eCase {
 			c.Claims = append(c.Claims, rapid.SampledFrom(c03eDict).Draw(rt, "claim"))
 		}
 	}
+	c.Silent = c.Custom && rapid.Bool().Draw(rt, "silent")
+	// options and configuration that must be transparent to routing (a third of the cases)
+	if rapid.IntRange(0, 2).Draw(rt, "optioned") == 0 {
+		big := []int64{0, 600000, 3600000} // ms: never reached, also on a stalled machine
+		for g := 0; g < ng; g++ {
+			var o c03eOpt
+			o.T = rapid.SampledFrom(big).Draw(rt, "ot")
+			o.B = rapid.SampledFrom([]int64{0, 0, 1, 1 << 20}).Draw(rt, "ob")
+			o.Pri = rapid.Bool().Draw(rt, "opri")
+			o.Sig = rapid.SampledFrom([]int{0, 0, 0, 1, 1, 2}).Draw(rt, "osig")
+			o.JT = rapid.IntRange(0, 2).Draw(rt, "ojt")
+			o.Mw = rapid.SampledFrom([]int{0, 0, 1, 2, 3}).Draw(rt, "omw")
+			c.Opt = append(c.Opt, o)
+		}
+		c.Cfg.Name = rapid.SampledFrom([]string{"", "c03e-svc"}).Draw(rt, "cname")
+		c.Cfg.Verbose = rapid.Bool().Draw(rt, "cverbose")
+		c.Cfg.Timeout = rapid.SampledFrom(big).Draw(rt, "ctimeout")
+		c.Cfg.MaxConns = rapid.SampledFrom([]int{0, 1, 10000}).Draw(rt, "cmaxconns")
+		c.Cfg.MaxBytes = rapid.SampledFrom([]int64{0, 1, 1 << 20}).Draw(rt, "cmaxbytes")
+		c.Cfg.Cpu = rapid.SampledFrom([]int64{0, 0, 500, 900, 1000}).Draw(rt, "ccpu")
+		c.Cfg.Chain = rapid.IntRange(0, 3).Draw(rt, "cchain") == 0
+		c.Cfg.Use = rapid.SampledFrom([]int{0, 0, 1, 2}).Draw(rt, "cuse")
+		c.Cfg.Cors = rapid.SampledFrom([]int{0, 0, 0, 1, 2}).Draw(rt, "ccors")
+	}
 	n := rapid.IntRange(1, 10).Draw(rt, "nreqs")
 	for i := 0; i < n; i++ {
 		var q c03eRoute
@@ -461,7 +673,7 @@ func c03eGen(rt *rapid.T) c03eCase {
 			r := eff[rapid.IntRange(0, len(eff)-1).Draw(rt, "from")]
 			q.M = r.M
 			if rapid.IntRange(0, 5).Draw(rt, "otherm") == 0 {
-				q.M = rapid.SampledFrom([]string{"GET", "POST", "PUT", "DELETE", "PATCH"}).Draw(rt, "qm2")
+				q.M = rapid.SampledFrom([]string{"GET", "POST", "PUT", "DELETE", "PATCH", "OPTIONS"}).Draw(rt, "qm2")
 			}
 			for _, sg := range c03eSegs(r.P) {
 				if len(sg) > 0 && sg[0] == ':' {
